@@ -101,7 +101,7 @@ pub fn judge(ctx: &Ctx, p: P, v: &Visit) {
             // generic table: after the caller overwrote the Length field it holds the caller's bytes until the next append
             let user_len = t.name() == "sdt" && {
                 let last_app = v.ops.iter().rposition(|o| matches!(o.k, 0..=4 | 7));
-                v.ops.iter().enumerate().any(|(i, o)| matches!(o.k, 5 | 6 | 8) && (o.shape as usize) < 8 && (o.shape as usize) + (match o.k { 5 => 1, 6 => 4, _ => 8 }) > 4 && last_app.map(|a| i > a).unwrap_or(true))
+                v.ops.iter().enumerate().any(|(i, o)| (o.k == 9 && last_app.map(|a| i > a).unwrap_or(true)) || matches!(o.k, 5 | 6 | 8) && (o.shape as usize) < 8 && (o.shape as usize) + (match o.k { 5 => 1, 6 => 4, _ => 8 }) > 4 && last_app.map(|a| i > a).unwrap_or(true))
             };
             if declared != s.len && !user_len {
                 let key = {
